@@ -408,16 +408,36 @@ func (hash *SexpHash) HashDelete(key Sexp) error {
 		return nil
 	}
 
-	hash.NumKeys--
 	for i, pair := range arr {
 		res, err := hash.Env.Compare(pair.Head, key)
 		if err == nil && res == 0 {
-			hash.Map[hashval] = append(arr[0:i], arr[i+1:]...)
+			if len(arr) == 1 {
+				delete(hash.Map, hashval)
+			} else {
+				hash.Map[hashval] = append(arr[0:i], arr[i+1:]...)
+			}
+			hash.NumKeys--
+			hash.removeFromKeyOrder(key)
 			break
 		}
 	}
 
 	return nil
+}
+
+// removeFromKeyOrder drops the (single) entry equal to key
+// from the insertion-order list.
+func (hash *SexpHash) removeFromKeyOrder(key Sexp) {
+	for i, k := range hash.KeyOrder {
+		res, err := hash.Env.Compare(k, key)
+		if err == nil && res == 0 {
+			// fresh slice: the order list may be shared with a clone
+			order := make([]Sexp, 0, len(hash.KeyOrder)-1)
+			order = append(order, hash.KeyOrder[:i]...)
+			hash.KeyOrder = append(order, hash.KeyOrder[i+1:]...)
+			return
+		}
+	}
 }
 
 func HashCountKeys(hash *SexpHash) int {
